@@ -29,7 +29,9 @@ TX == {"struct", "slice", "array", "map", "ptr", "iface", "func", "chan", "error
 ValueTypes == TI \cup TF \cup TB \cup TS
 ParamTypes == ValueTypes \cup TU \cup TX
 \* result-only tokens: error, chan error, <-chan error, chan int
-ResultOnly == {"error", "chanerr", "rchanerr", "chanint"}
+\* "errval" / "errptr": concrete types that implement error (a struct with a value receiver, a pointer type)
+ResultOnly == {"error", "chanerr", "rchanerr", "chanint", "errval", "errptr"}
+ErrToks    == {"error", "errval", "errptr"}
 NonFuncs   == {"int", "string", "bool", "float", "struct", "slice", "map", "chan", "ptrfunc", "nilptr"}
 
 Class(t) == CASE t \in TI -> "I" [] t \in TF -> "F" [] t \in TB -> "B" [] t \in TS -> "S"
@@ -54,11 +56,11 @@ ResultShape(api, rs) ==
   IF api = "func"
   THEN CASE Len(rs) = 0 -> "none"
          [] Len(rs) = 1 /\ Carrier(rs[1]) -> "value"
-         [] Len(rs) = 1 /\ rs[1] = "error" -> "error"
-         [] Len(rs) = 2 /\ Carrier(rs[1]) /\ rs[2] = "error" -> "valueerror"
+         [] Len(rs) = 1 /\ rs[1] \in ErrToks -> "error"
+         [] Len(rs) = 2 /\ Carrier(rs[1]) /\ rs[2] \in ErrToks -> "valueerror"
          [] OTHER -> "bad"
   ELSE CASE Len(rs) = 0 -> "none"
-         [] Len(rs) = 1 /\ rs[1] = "error" -> "error"
+         [] Len(rs) = 1 /\ rs[1] \in ErrToks -> "error"
          [] Len(rs) = 1 /\ rs[1] \in {"chanerr", "rchanerr"} -> "chan"
          [] OTHER -> "bad"
 
@@ -67,6 +69,10 @@ UsesU(sig) == \/ \E i \in 1..Len(sig.params) : Class(sig.params[i]) = "U"
 NamedTypes == {"MyInt", "MyInt8", "MyFloat", "MyFloat32", "MyBool", "MyString", "MyUint"}
 UsesNamed(sig) == \/ \E i \in 1..Len(sig.params) : sig.params[i] \in NamedTypes
                   \/ (sig.api = "func" /\ Len(sig.results) >= 1 /\ sig.results[1] \in NamedTypes)
+
+\* an error component declared as a concrete type: the property does not say whether that can be bridged
+\* ("refused, or accepted and faithful": the error such a function returns is an error of the call)
+UsesConcreteErr(sig) == \E i \in 1..Len(sig.results) : sig.results[i] \in {"errval", "errptr"}
 
 (* Registration: "ok" must be accepted, "refused" must be refused with an     *)
 (* error, "either" = refused, or accepted and then faithful.  A panic is      *)
@@ -79,7 +85,7 @@ Register(sig) ==
   IF sig.shape # "fn" THEN "refused"
   ELSE IF \E i \in 1..Len(sig.params) : Class(sig.params[i]) = "X" THEN "refused"
   ELSE IF ResultShape(sig.api, sig.results) = "bad" THEN "refused"
-  ELSE IF UsesU(sig) \/ UsesNamed(sig) THEN "either"
+  ELSE IF UsesU(sig) \/ UsesNamed(sig) \/ UsesConcreteErr(sig) THEN "either"
   ELSE "ok"
 
 -----------------------------------------------------------------------------
